@@ -402,16 +402,21 @@ def _linear_rules(ctx, model, dm):
         el = s[2]
         if not (el[0] == "call" and el[1].endswith("flattened_product")):
             continue
-        parts = _add_list(el[2][0])
+        parts = _list_pieces(el[2][0], s[3])
         if len(parts) != 3:
             continue
         before, mid, after = parts
 
         def undiff_over(part, lo, hi):
-            return (part[0] == "seq" and part[3] == ("slice", CH, lo, hi)
-                    and not part[4] and part[2][0] == "call"
-                    and part[2][1] == "self.rec_undiff"
-                    and part[2][2][0] == ("elem", ("slice", CH, lo, hi)))
+            if not (part[0] == "seq" and not part[4] and part[3][0] == "slice"
+                    and part[3][1] == CH):
+                return False
+            plo, phi = part[3][2], part[3][3]
+            if plo is None:
+                plo = ("const", 0)          # x[:i] is x[0:i]
+            return (plo, phi) == (lo, hi) and part[2][0] == "call" \
+                and part[2][1] == "self.rec_undiff" \
+                and part[2][2][0] == ("elem", part[3])
         ok = (undiff_over(before, ("const", 0), I)
               and undiff_over(after, ("binop", "Add", I, ("const", 1)), None)
               and mid == ("lit", "list", (("rec", ("elem", CH), True, ()),)))
@@ -514,6 +519,21 @@ def _linear_rules(ctx, model, dm):
     mc = model.lookup(dm, "map_common_subexpression")
     ok = mc is not None and mc.owner.name == "CSECachingMapperMixin"
     ctx.ob("S/cse-mixin", ok, dm.loc(), "CSE derivatives are cached per mapper")
+
+
+def _list_pieces(v, outer_src):
+    """a list value as the sequence of its pieces, whether it was written as a
+    concatenation of lists or built by append / extend in loops: an element
+    appended directly in the loop over *outer_src* is a one-element piece, an
+    element appended in an inner loop is a comprehension over that loop"""
+    if v[0] == "binop" and v[1] == "Add":
+        return _list_pieces(v[2], outer_src) + _list_pieces(v[3], outer_src)
+    if v[0] == "extend":
+        prior, elem, src = v[1], v[2], v[3]
+        piece = ("lit", "list", (elem,)) if src == outer_src or src is None \
+            else ("seq", "list", elem, src, ())
+        return _list_pieces(prior, outer_src) + [piece]
+    return [v]
 
 
 def _add_list(v):
